@@ -83,6 +83,7 @@ Definition resp_matches (r : response) (status : Z) (b : ebody) : bool :=
   | R200Part k id, EBPart k' id' => (status =? 200) && Nat.eqb k k' && (id =? id')
   | R200Seg k id, EBSeg k' id' => (status =? 200) && Nat.eqb k k' && (id =? id')
   | R400, EBNone => status =? 400
+  | R404, EBNone => status =? 404
   | R500, EBNone => status =? 500
   | RNone, EBEmpty => status =? 200
   | _, _ => false
@@ -126,14 +127,14 @@ Definition paths_ok_b (t : ptable) (e : list path) : bool :=
 
 (* outcome of one request evaluated atomically on a quiescent state *)
 Inductive pout :=
-| PO400 | PO500 | POBlock | POPanic
+| PO400 | PO404 | PO500 | POBlock | POPanic
 | POPlaylist (pl : playlist) | POMulti | POPart (k : nat) (id : Z) | POSeg (k : nat) (id : Z) | POEmpty.
 
 Definition tres_out (t : tres) : option pout :=
   match t with
   | TWait => Some POBlock
   | TExit R400 => Some PO400
-  | TExit R500 | TLeak R500 => Some PO500
+  | TExit R500 => Some PO500
   | TExit (R200Playlist pl) => Some (POPlaylist pl)
   | TExit R200Multi => Some POMulti
   | TExit RPanic => Some POPanic
@@ -149,7 +150,7 @@ Definition probe (m : mux) (r : request) : option pout :=
   | PLock (FHint k id) =>
       match test m (req_query r) (FHint k id) with
       | TBreakHint (Some (HPart k' id')) => Some (POPart k' id')
-      | TBreakHint None => Some POEmpty
+      | TBreakHint None => Some PO404
       | TBreakHint _ => None
       | t => tres_out t
       end
@@ -159,7 +160,7 @@ Definition probe (m : mux) (r : request) : option pout :=
 
 Definition pout_eqb (a b : pout) : bool :=
   match a, b with
-  | PO400, PO400 | PO500, PO500 | POBlock, POBlock | POPanic, POPanic | POMulti, POMulti
+  | PO400, PO400 | PO404, PO404 | PO500, PO500 | POBlock, POBlock | POPanic, POPanic | POMulti, POMulti
   | POEmpty, POEmpty => true
   | POPlaylist x, POPlaylist y => playlist_eqb x y
   | POPart k i, POPart k' i' | POSeg k i, POSeg k' i' => Nat.eqb k k' && (i =? i')
